@@ -121,7 +121,11 @@ def worker_main(check_cls, seed, tier):
         res['case_id'] = case.get('id')
         res['wall'] = round(time.time() - t0, 3)
         proto.write(json.dumps(res, default=_json_default) + '\n')
-    return 0
+        if res.get('_recycle'):
+            break
+    proto.flush()
+    # threads parked by a failing command must not keep the worker alive (that is judged by C09)
+    os._exit(0)
 
 
 def _json_default(o):
@@ -227,6 +231,14 @@ class _Slot(threading.Thread):
                     self.proc = None
                 else:
                     res = json.loads(line)
+                    if res.pop('_recycle', False):
+                        # the worker asked for a fresh process (e.g. leaked threads after failing restores)
+                        try:
+                            self.proc.stdin.close()
+                            self.proc.wait(5)
+                        except Exception:
+                            self.proc.kill()
+                        self.proc = None
                 r.done.put((case, res))
         finally:
             if self.proc is not None and self.proc.poll() is None:
